@@ -154,12 +154,19 @@ pub fn run(out: &mut Out, tier: &str, seed: u64, prop: &str) {
                 }
             }
         }
-        let txt = format!("{} in '{}'", VKEY_TEXT[k], members.join("  "));
+        // the list text in several whitespace layouts (the list is whitespace-separated: blanks and tabs before, between and after
+        // its members do not change it), `in` and `not in`
         if !members.is_empty() {
-            match catch_unwind(AssertUnwindSafe(|| MarkerTree::from_str(&txt))) {
-                Ok(Ok(pm)) => if pm != min { out.oracle_fail(prop, "parsed in-list differs from the typed expression", serde_json::json!({"text": txt})); },
-                Ok(Err(e)) => out.oracle_fail(prop, &format!("valid marker text rejected: {e}"), serde_json::json!({"text": txt})),
-                Err(_) => { out.oracle_fail(prop, "panic while parsing", serde_json::json!({"text": txt})); return }
+            for (lead, sep, trail) in [("", "  ", ""), (" ", " ", ""), ("", " ", " "), ("\t", "\t", "\t"), ("  ", " \t ", "  ")] {
+                for (op, want) in [("in", &min), ("not in", &mnot)] {
+                    let txt = format!("{} {} '{}{}{}'", VKEY_TEXT[k], op, lead, members.join(sep), trail);
+                    out.evaluations += 1;
+                    match catch_unwind(AssertUnwindSafe(|| MarkerTree::from_str(&txt))) {
+                        Ok(Ok(pm)) => if pm != *want { out.oracle_fail(prop, "a parsed in-list differs from the typed expression with the same members (whitespace around the members changed it)", serde_json::json!({"text": txt})); },
+                        Ok(Err(e)) => out.oracle_fail(prop, &format!("valid marker text rejected: {e}"), serde_json::json!({"text": txt})),
+                        Err(_) => { out.oracle_fail(prop, "panic while parsing", serde_json::json!({"text": txt})); return }
+                    }
+                }
             }
         }
     }
